@@ -500,3 +500,102 @@ ANCHORS = [('swh/model/swhids.py', '_BaseSWHID.*'),
            ('swh/model/swhids.py', '_parse_core_swhid'),
            ('swh/model/swhids.py', '_parse_lines_qualifier'),
            ('swh/model/swhids.py', '_parse_path_qualifier')]
+
+
+# the case stream is ordered by family: coq_cases gets every case and keeps a spread of each family (it shrinks the list it
+# is given IN PLACE: the evidence's `n` is the number evaluated)
+COQ_SAMPLE = 1 << 30
+
+
+def coq_cases(cases):
+    """parse_core / parse_ext / parse_q, print_q of the parsed value and its re-parse, lang_core / lang_ext / lang_q,
+    within_limit, and the stdlib pieces (unquote, unquote_to_bytes, quote_from_bytes, quote_text, utf8_decode_replace,
+    utf8_encode) evaluated by vm_compute inside Coq vs the extracted driver.  The Coq terms are built from the very request
+    lines the driver receives."""
+    from . import core
+    fam = {}
+    for c in cases:
+        fam.setdefault("s" if is_s(c) else c["k"], []).append(c)
+    def spread(l, n):
+        return l[::max(1, len(l) // n)][:n] if l else []
+    picked = []
+    for k in sorted(fam):
+        picked += spread(fam[k][:3000], 20) + spread(fam[k][3000:], 10) if k == "s" else spread(fam[k], 5)
+    chosen = []
+    for c in picked:
+        rq = requests(c)[0]
+        if len(rq) <= 2500 and rq not in {r for _, r in chosen}:
+            chosen.append((c, rq))
+    cases[:] = [c for c, _ in chosen]
+
+    def txt(t):
+        return "[" + "; ".join("%d" % x for x in (untok_text(t) or [])) + "]%N"
+    def hexl(h):
+        return "[" + "; ".join("%d" % b for b in core.unhx(h)) + "]%N"
+    def term(rq):
+        w = rq.split(" ")
+        if w[0] == "s":
+            return "s_case %d%%N %s" % (int(w[1]), txt(w[2]))
+        return {"unquote": "unquote %s", "unq2b": "ot (unquote_to_bytes %s)", "quoteb": "quote_from_bytes %s", "quote": "ot (quote_text %s)",
+                "utf8dec": "utf8_decode_replace %s", "utf8enc": "ot (utf8_encode %s)"}[w[0]] % (hexl if w[0] in ("quoteb", "utf8dec") else txt)(w[1])
+    src = ("From Coq Require Import List NArith ZArith.\nFrom SWH.lib Require Import Bytes Utf8 Percent.\nFrom SWH.model Require Import Swhid.\n"
+           "Import ListNotations.\n" + core.COQ_CHECKSUM + """
+Definition zz (x : Z) : list N := [if (x <? 0)%Z then 1%N else 0%N; Z.abs_N x].
+Definition en (e : err) : N := match e with EValidation => 1 | EValue => 2 | EType => 3 | EAssertion => 4 end%N.
+Definition ot (o : option (list N)) : list N := match o with Some l => 360%N :: l | None => [361%N] end.
+Definition sc (c : core) : list N := c_ty c ++ [362%N] ++ c_oid c.
+Definition oc (o : option core) : list N := match o with Some c => 360%N :: sc c | None => [361%N] end.
+Definition sl (o : option (Z * option Z)) : list N := match o with
+  | None => [361%N] | Some (a, None) => 363%N :: zz a | Some (a, Some b) => 364%N :: zz a ++ zz b end.
+Definition sq (v : qualified) : list N :=
+  q_ty v ++ [362%N] ++ q_oid v ++ ot (q_origin v) ++ oc (q_visit v) ++ oc (q_anchor v) ++ ot (q_path v) ++ sl (q_lines v).
+Definition res {A : Type} (show : A -> list N) (r : result A) : list N := match r with Ok v => 365%N :: show v | Err e => [366%N; en e] end.
+Definition tf (b : bool) : N := if b then 1%N else 0%N.
+Definition s_case (lim : N) (t : list N) : list N :=
+  let q := parse_q lim t in
+  let p := match q with Ok v => Some (print_q lim v) | Err _ => None end in
+  res sc (parse_core t) ++ [350%N] ++ res sc (parse_ext t) ++ [351%N] ++ res sq q ++ [352%N]
+  ++ match p with None => [361%N] | Some r => res (fun x : list N => x) r end ++ [353%N]
+  ++ match p with Some (Ok s) => res sq (parse_q lim s) | _ => [361%N] end ++ [354%N]
+  ++ [tf (lang_core t); tf (lang_ext t); tf (lang_q t); tf (within_limit lim t)].
+""" + "Definition cases : list (list N) := [" + ";\n ".join(term(rq) for _, rq in chosen) + "].\nEval vm_compute in map cksum cases.\n")
+    EN = {"ValidationError": 1, "ValueError": 2, "TypeError": 3, "AssertionError": 4}
+    def zz(s):
+        n = int(s)
+        return [1 if n < 0 else 0, abs(n)]
+    def wd(w):
+        return [] if w == "." else [ord(ch) for ch in w]
+    def ot(t, f):
+        return [361] if t == "-" else [360] + f(t)
+    def hb(h):
+        return list(core.unhx(h))
+    def sc(t):
+        ty, h = t.split(":")
+        return wd(ty) + [362] + hb(h)
+    def sl(t):
+        if t == "-":
+            return [361]
+        p = t.split(":")
+        return [363] + zz(p[0]) if len(p) == 1 else [364] + zz(p[0]) + zz(p[1])
+    def sq(t):
+        ty, oid, origin, visit, anchor, path, ln = t.split("/")
+        return wd(ty) + [362] + hb(oid) + ot(origin, untok_text) + ot(visit, sc) + ot(anchor, sc) + ot(path, hb) + sl(ln)
+    def res(t, f):
+        return [365] + f(t[3:]) if t.startswith("ok=") else [366, EN[t[4:]]]
+    def answer(rq, r):
+        k = rq.split(" ")[0]
+        if k in ("unquote", "quoteb", "utf8dec"):
+            return untok_text(r)
+        if k == "quote":
+            return [361] if r == "err" else [360] + untok_text(r)
+        if k in ("unq2b", "utf8enc"):
+            return [361] if r == "err" else [360] + hb(r)
+        d = kv(r)
+        return (res(d["C"], sc) + [350] + res(d["X"], sc) + [351] + res(d["Q"], sq) + [352]
+                + ([361] if d["P"] == "-" else res(d["P"], untok_text)) + [353]
+                + ([361] if d["RR"] == "-" else res(d["RR"], sq)) + [354]
+                + [1 if ch == "t" else 0 for ch in d["L"]] + [1 if d["W"] == "t" else 0])
+    reqs = [rq for _, rq in chosen]
+    resp = core.run_driver(ID, reqs)
+    exp = [core.py_cksum(answer(rq, r)) for rq, r in zip(reqs, resp)]
+    return src, exp
